@@ -7,6 +7,7 @@ from __future__ import annotations
 
 import asyncio
 import collections
+import os
 from typing import Any, Dict, List, Optional, Tuple
 
 from . import repo  # noqa: F401  (puts the tree under test on sys.path)
@@ -37,7 +38,10 @@ class _Run:
         self.stats = stats
         self.seq = 0
         self.events: List[Tuple[int, str, str, str, Any]] = []
-        self.policy = tape.draw(3, "policy")
+        self.policy = tape.weighted([2, 2, 1], "policy")
+        if os.environ.get("VERIF_C12_POLICIES"):          # experiment knob: restrict the policy set
+            allowed = [int(x) for x in os.environ["VERIF_C12_POLICIES"].split(",")]
+            self.policy = allowed[self.policy % len(allowed)]
         self.loop = SimLoop(tape, self.policy, max_steps=4000, max_time=10000.0)
         self.loop.stats = stats
         self.ch: Optional[AsyncChannel] = None
@@ -175,6 +179,39 @@ class _Run:
             __next__ = None
 
         await self.pause()
+        if mode in (3, 4):
+            # a real list / tuple: the harness cannot see the individual puts, so every item counts
+            # as invoked when send_from is invoked and as completed when send_from returns
+            batch = list(items) if mode == 3 else tuple(items)
+            self.in_op[a] = "send_from"
+            self.ev(a, "inv", "send_from", (len(items), cfg["close"], type(batch).__name__))
+            for it in items:
+                self.ev(a, "inv", "send", it)
+            try:
+                await ch.send_from(batch, close=cfg["close"])
+            except ChannelClosed:
+                for it in items:
+                    self.ev(a, "raise", "send", (it, "ChannelClosed"))
+            except asyncio.CancelledError:
+                raise
+            except Exception as e:  # noqa: BLE001
+                for it in items:
+                    self.ev(a, "raise", "send", (it, type(e).__name__))
+            else:
+                if cfg["close"] and self.close_seq is None:
+                    # closed inside the call, after the last put: every put completed before it
+                    for it in items:
+                        self.ev(a, "ret", "send", it)
+                    self.close_seq = self.ev(a, "inv", "close", "via send_from")
+                    self.close_ret_seq = self.close_seq
+                else:
+                    for it in items:
+                        self.ev(a, "ret", "send", it)
+                self.ev(a, "ret", "send_from", len(items))
+                self._maybe_cancel_after_send(a, cfg)
+            finally:
+                self.in_op[a] = None
+            return
         src = Src() if mode == 1 else ASrc()
         self.in_op[a] = "send_from"
         self.ev(a, "inv", "send_from", (len(items), cfg["close"]))
@@ -484,7 +521,7 @@ class _Run:
         n_recv = 1 + tape.draw(3, "n_recv")
         scfg = []
         for s in range(n_send):
-            mode = tape.draw(3, "send-mode")
+            mode = tape.draw(5, "send-mode")
             n = 1 + tape.draw(3, "n_items")
             close = bool(tape.draw(3, "send_from-close") == 2) if mode else False
             scfg.append(dict(mode=mode, items=[(f"s{s}", k) for k in range(n)], close=close,
@@ -675,7 +712,7 @@ class ChanSim(Simulator):
     rules = RULES
     generation_rule = ("Each run draws from the decision tape: scheduling policy (P0 stock FIFO with tape-ordered "
                        "timer ties / P1 external arrivals between any two handles / P2 any ready handle next), "
-                       "buffer limit 0/1/2, 1-2 senders (send per item, send_from list, send_from async generator, "
+                       "buffer limit 0/1/2, 1-2 senders (send per item, send_from over an instrumented iterator / async generator / a real list / a real tuple, "
                        "optionally close=True) x 1-3 items, 1-3 receivers (receive loop, async for, wait_for(receive), "
                        "wait_for(__anext__), the real ServiceStub._send_messages, the real ServiceStub._stream_stream whose response "
                        "side may fail so that the library cancels its own sender task), a closer (idiomatic, at an "
